@@ -40,7 +40,7 @@ S_RTypes     == {"A", "CNAME", "TXT", "AAAA", "SOA", "BAD"}
 CONSTANTS MaxSteps, MaxNow, SimLen
 
 MCInit == Init /\ g = GInit /\ steps = 0 /\ hist = <<>>
-MCNext == Next /\ g' = GNext(g, ev', now') /\ steps' = steps + 1 /\ hist' = <<>>
+MCNext == Next /\ g' = GNext(g, ev', now) /\ steps' = steps + 1 /\ hist' = <<>>
 MCSpec == MCInit /\ [][MCNext]_mcvars
 
 Bounded == steps <= MaxSteps /\ now <= MaxNow
@@ -77,7 +77,7 @@ SimStep ==
   \/ \E n \in SimNames, ty \in One(RTypes), i \in One(Ids) : \E d \in One(DataFor(ty)), S \in SimSigners(n, Nil), v \in SimVia(n, Nil) : SetRecord(S, v, n, ty, i, d)
   \/ \E n \in SimNames, ty \in One(RTypes) : \E S \in SimSigners(n, Nil), v \in SimVia(n, Nil) : DeleteRecords(S, v, n, ty)
 
-SimNext == SimStep /\ g' = GNext(g, ev', now') /\ steps' = steps + 1 /\ hist' = Append(hist, [ev' EXCEPT !.ntf = <<>>])
+SimNext == SimStep /\ g' = GNext(g, ev', now) /\ steps' = steps + 1 /\ hist' = Append(hist, [ev' EXCEPT !.ntf = <<>>])
 SimSpec == MCInit /\ [][SimNext]_mcvars
 
 EmitScenario == IF Len(hist) = SimLen THEN PrintT("SCEN " \o ToJson([steps |-> hist])) ELSE TRUE
@@ -92,10 +92,10 @@ Inv_C10 == \A api \in {ApiModel(Dev)} :      \* (\A binds api to a value; a LET 
 Inv_C12 == \A api \in {ApiModel(Dev)} :
            /\ C12_Get(g, now, api) /\ C12_GetAll(g, now, api) /\ C12_Resolve(g, now, api) /\ C12_ResolveDot(api)
            /\ WellFormed(g.rec)
-P_C10 == [][C10_RegisterFree(g, ev', now') /\ C10_Renew(g', ev', now') /\ C10_Announced(g, g', ev')]_mcvars
-P_C11 == [][C11_UnauthorisedInert(g, ev', now')]_mcvars
-P_C12 == [][/\ C12_Lists(g, g') /\ C12_Ops(g, ev', now') /\ C12_RegisterConflict(g, ev')
-            /\ C12_Serial(g, ev', now', [soa |-> [n \in NT |-> MSoa(Dev, n)]'])]_mcvars
+P_C10 == [][C10_RegisterFree(g, ev', now) /\ C10_Renew(g', ev', now) /\ C10_Announced(g, g', ev')]_mcvars
+P_C11 == [][C11_UnauthorisedInert(g, ev', now)]_mcvars
+P_C12 == [][/\ C12_Lists(g, g') /\ C12_Ops(g, ev', now) /\ C12_RegisterConflict(g, ev')
+            /\ C12_Serial(g, ev', now, [soa |-> [n \in NT |-> MSoa(Dev, n)]'])]_mcvars
 
 \* the storage agrees with the reference machine (binding of the two views inside the Spec)
 Inv_Ref == /\ \A n \in Names : g.reg[n] = ns[n]
